@@ -35,6 +35,7 @@ class Toks:
         o = Obj('Token', lazy=True, label=label)
         o.fields['kind'] = self.E[kind]
         o.fields['at_bol'] = 1 if at_bol else 0
+        o.fields['origin'] = 0        # model tokens are source tokens, not results of macro replacement
         o.meta['text'] = text
         return o
 
